@@ -1,7 +1,7 @@
 //! C10 — conditions and loop counts. Evaluates the real `Condition`s on prepared `State`s, runs the
 //! real `Loop` with counting bodies, drives `RandomChance` with a scripted generator.
 use std::sync::atomic::{AtomicU64, Ordering};
-use std::sync::{Arc, Mutex, OnceLock};
+use std::sync::{Arc, Mutex};
 
 use better_any::{Tid, TidAble};
 use hcommon::*;
@@ -125,15 +125,22 @@ fn build_items(items: &[Sx], conds: &[Box<dyn Condition<P>>], log: &EvLog) -> Ve
     }).collect()
 }
 
-/// Scripted operand: fixed outcome/// Scripted operand: fixed outcome, records its tag in a shared log every time it is evaluated.
+/// Scripted operand: fixed outcome, records its tag in a shared log every time it is evaluated.
 #[derive(Clone, Serialize)]
 struct ScriptCond {
     tag: u64,
     outcome: u8, // 0 false, 1 true, 2 error
     #[serde(skip)]
     log: Arc<Mutex<Vec<u64>>>,
+    /// tags of the operands whose `init` was called (propagated by the connectives)
+    #[serde(skip)]
+    inits: Arc<Mutex<Vec<u64>>>,
 }
 impl Condition<P> for ScriptCond {
+    fn init(&self, _problem: &P, _state: &mut State<P>) -> ExecResult<()> {
+        self.inits.lock().unwrap().push(self.tag);
+        Ok(())
+    }
     fn evaluate(&self, _problem: &P, _state: &mut State<P>) -> ExecResult<bool> {
         self.log.lock().unwrap().push(self.tag);
         match self.outcome {
@@ -179,26 +186,14 @@ impl Component<P> for CountBody {
     }
 }
 
-/// Scripted generator: `seed_from_u64(id)` looks the word list up in a process-global table; it
-/// replays the words and then panics (a case never asks for more words than it scripted).
-static SCRIPTS: OnceLock<Mutex<Vec<(Vec<u64>, Arc<AtomicU64>)>>> = OnceLock::new();
-fn scripts() -> &'static Mutex<Vec<(Vec<u64>, Arc<AtomicU64>)>> { SCRIPTS.get_or_init(|| Mutex::new(vec![])) }
-fn register(words: Vec<u64>) -> (u64, Arc<AtomicU64>) {
-    let used = Arc::new(AtomicU64::new(0));
-    let mut t = scripts().lock().unwrap();
-    t.push((words, used.clone()));
-    ((t.len() - 1) as u64, used)
-}
-struct ScriptRng {
-    words: Vec<u64>,
-    used: Arc<AtomicU64>,
-}
-impl RngCore for ScriptRng {
+/// Held-word generator: every draw returns the word the harness put into `HELD` (it does not advance), so one
+/// evaluation sees ONE scripted uniform word however many draws it makes (none, one, several). The property fixes
+/// neither the word -> verdict mapping nor the number of draws, so neither is observed.
+static HELD: AtomicU64 = AtomicU64::new(0);
+struct HoldRng;
+impl RngCore for HoldRng {
     fn next_u32(&mut self) -> u32 { (self.next_u64() >> 32) as u32 }
-    fn next_u64(&mut self) -> u64 {
-        let i = self.used.fetch_add(1, Ordering::SeqCst) as usize;
-        self.words[i]
-    }
+    fn next_u64(&mut self) -> u64 { HELD.load(Ordering::SeqCst) }
     fn fill_bytes(&mut self, dest: &mut [u8]) {
         for chunk in dest.chunks_mut(8) {
             let w = self.next_u64().to_le_bytes();
@@ -207,13 +202,99 @@ impl RngCore for ScriptRng {
     }
     fn try_fill_bytes(&mut self, dest: &mut [u8]) -> Result<(), rand::Error> { self.fill_bytes(dest); Ok(()) }
 }
-impl SeedableRng for ScriptRng {
+impl SeedableRng for HoldRng {
     type Seed = [u8; 8];
-    fn from_seed(seed: [u8; 8]) -> Self { Self::seed_from_u64(u64::from_le_bytes(seed)) }
-    fn seed_from_u64(id: u64) -> Self {
-        let t = scripts().lock().unwrap();
-        let (w, u) = &t[id as usize];
-        ScriptRng { words: w.clone(), used: u.clone() }
+    fn from_seed(_seed: [u8; 8]) -> Self { HoldRng }
+}
+/// Number of equidistant words of a sweep over the whole u64 range.
+const SWEEP: u64 = 4096;
+
+/// Event budget of one `nest` case: a changed loop that no longer terminates ends in `Err`, not in a hang.
+const NEST_BUDGET: u64 = 20_000;
+
+/// Leaf of a `nest` tree: logs `(p tag <Iterations it sees>)`.
+#[derive(Clone)]
+struct LeafComp { tag: u64, log: EvLog, budget: Arc<AtomicU64> }
+impl Serialize for LeafComp {
+    fn serialize<S: serde::Serializer>(&self, s: S) -> Result<S::Ok, S::Error> { s.serialize_unit() }
+}
+impl Component<P> for LeafComp {
+    fn execute(&self, _problem: &P, state: &mut State<P>) -> ExecResult<()> {
+        if self.budget.fetch_add(1, Ordering::SeqCst) > NEST_BUDGET { return Err(eyre::eyre!("event budget exhausted")); }
+        let it = state.try_get_value::<Iterations>().map(|v| v.to_string()).unwrap_or("none".into());
+        self.log.lock().unwrap().push(format!("(p {} {})", self.tag, it));
+        Ok(())
+    }
+}
+/// Wrapper around a loop's `LessThanN::iterations(n)`: logs `(t id verdict <Iterations> <Progress>)` per test.
+#[derive(Clone)]
+struct LogCond { id: u64, inner: Box<dyn Condition<P>>, log: EvLog, budget: Arc<AtomicU64> }
+impl Serialize for LogCond {
+    fn serialize<S: serde::Serializer>(&self, s: S) -> Result<S::Ok, S::Error> { s.serialize_unit() }
+}
+impl Condition<P> for LogCond {
+    fn init(&self, problem: &P, state: &mut State<P>) -> ExecResult<()> { self.inner.init(problem, state) }
+    fn evaluate(&self, problem: &P, state: &mut State<P>) -> ExecResult<bool> {
+        if self.budget.fetch_add(1, Ordering::SeqCst) > NEST_BUDGET { return Err(eyre::eyre!("event budget exhausted")); }
+        let v = self.inner.evaluate(problem, state)?;
+        let it = state.try_get_value::<Iterations>().map(|v| v.to_string()).unwrap_or("none".into());
+        let pr = state.try_get_value::<Progress<ValueOf<Iterations>>>().map(fxn).unwrap_or("none".into());
+        self.log.lock().unwrap().push(format!("(t {} {} {} {})", self.id, b(v), it, pr));
+        Ok(v)
+    }
+}
+/// Builds a `nest` tree through the real builder: `(p tag)`, `(loop id n ITEM*)`, `(scope ITEM*)`.
+fn build_nest(mut bld: mahf::configuration::ConfigurationBuilder<P>, items: &[Sx], log: &EvLog, budget: &Arc<AtomicU64>)
+    -> mahf::configuration::ConfigurationBuilder<P> {
+    for it in items {
+        let (name, a) = it.head().unwrap();
+        bld = match name {
+            "p" => bld.do_(Box::new(LeafComp { tag: a[0].nat().unwrap(), log: log.clone(), budget: budget.clone() })),
+            "loop" => {
+                let cond: Box<dyn Condition<P>> = Box::new(LogCond {
+                    id: a[0].nat().unwrap(),
+                    inner: LessThanN::<ValueOf<Iterations>>::iterations::<P>(a[1].nat().unwrap() as u32),
+                    log: log.clone(), budget: budget.clone() });
+                bld.while_(cond, |inner| build_nest(inner, &a[2..], log, budget))
+            }
+            "scope" => bld.scope_(|inner| build_nest(inner, a, log, budget)),
+            _ => panic!("unknown nest item {name}"),
+        };
+    }
+    bld
+}
+/// Is every loop the only loop on its registry level? (`wellScoped` of the model; picks the site.)
+fn nest_level(items: &[Sx]) -> Option<u32> {
+    // Some(k): k loops on this level (k <= 1) and every scope below is fine; None: not well-scoped
+    let mut k = 0;
+    for it in items {
+        let (name, a) = it.head().unwrap();
+        match name {
+            "loop" => { if nest_level(&a[2..])? != 0 { return None; } k += 1; }
+            "scope" => { nest_level(a)?; }
+            _ => {}
+        }
+    }
+    if k <= 1 { Some(k) } else { None }
+}
+
+/// Wrapper around a composite loop condition: logs `(t verdict <Iterations> <Evaluations> <both Progress values>)` per test.
+#[derive(Clone)]
+struct LogCond2 { inner: Box<dyn Condition<P>>, log: EvLog, budget: Arc<AtomicU64> }
+impl Serialize for LogCond2 {
+    fn serialize<S: serde::Serializer>(&self, s: S) -> Result<S::Ok, S::Error> { s.serialize_unit() }
+}
+impl Condition<P> for LogCond2 {
+    fn init(&self, problem: &P, state: &mut State<P>) -> ExecResult<()> { self.inner.init(problem, state) }
+    fn evaluate(&self, problem: &P, state: &mut State<P>) -> ExecResult<bool> {
+        if self.budget.fetch_add(1, Ordering::SeqCst) > NEST_BUDGET { return Err(eyre::eyre!("event budget exhausted")); }
+        let v = self.inner.evaluate(problem, state)?;
+        let it = state.try_get_value::<Iterations>().map(|v| v.to_string()).unwrap_or("none".into());
+        let ev = state.try_get_value::<Evaluations>().map(|v| v.to_string()).unwrap_or("none".into());
+        let pit = state.try_get_value::<Progress<ValueOf<Iterations>>>().map(fxn).unwrap_or("none".into());
+        let pev = state.try_get_value::<Progress<ValueOf<Evaluations>>>().map(fxn).unwrap_or("none".into());
+        self.log.lock().unwrap().push(format!("(t {} {it} {ev} {pit} {pev})", b(v)));
+        Ok(v)
     }
 }
 
@@ -223,18 +304,22 @@ fn res(r: ExecResult<bool>) -> String {
 }
 
 /// Builds the formula; `next` numbers the leaves in reading order.
-fn build_form(f: &Sx, env: &[u8], next: &mut u64, log: &Arc<Mutex<Vec<u64>>>) -> Box<dyn Condition<P>> {
+fn build_form(f: &Sx, env: &[u8], next: &mut u64, log: &Arc<Mutex<Vec<u64>>>, inits: &Arc<Mutex<Vec<u64>>>) -> Box<dyn Condition<P>> {
     let (name, a) = f.head().unwrap();
     match name {
         "l" => {
             let operand = match a[0].atom().unwrap() { "a" => 0, "b" => 1, _ => 2 };
             let tag = *next;
             *next += 1;
-            Box::new(ScriptCond { tag, outcome: env[operand], log: log.clone() })
+            Box::new(ScriptCond { tag, outcome: env[operand], log: log.clone(), inits: inits.clone() })
         }
-        "not" => Not::new(build_form(&a[0], env, next, log)),
-        "and" => { let v: Vec<_> = a.iter().map(|g| build_form(g, env, next, log)).collect(); And::new(v) }
-        "or" => { let v: Vec<_> = a.iter().map(|g| build_form(g, env, next, log)).collect(); Or::new(v) }
+        "not" => Not::new(build_form(&a[0], env, next, log, inits)),
+        "and" => { let v: Vec<_> = a.iter().map(|g| build_form(g, env, next, log, inits)).collect(); And::new(v) }
+        "or" => { let v: Vec<_> = a.iter().map(|g| build_form(g, env, next, log, inits)).collect(); Or::new(v) }
+        // the public operator forms `!c`, `c1 & c2`, `c1 | c2` (std::ops impls in logical.rs)
+        "not1" => !build_form(&a[0], env, next, log, inits),
+        "and2" => { let l = build_form(&a[0], env, next, log, inits); let r = build_form(&a[1], env, next, log, inits); l & r }
+        "or2" => { let l = build_form(&a[0], env, next, log, inits); let r = build_form(&a[1], env, next, log, inits); l | r }
         _ => panic!("unknown connective {name}"),
     }
 }
@@ -248,9 +333,16 @@ fn run_case(input: &Sx) -> String {
             let kind = a[0].atom().unwrap();
             let out = catch(|| -> (ExecResult<bool>, f64) {
                 match kind {
-                    "u" | "e" => {
+                    "u" | "e" | "o" => {
                         let (n, v) = (a[1].nat().unwrap() as u32, a[2].nat().unwrap() as u32);
-                        if kind == "u" {
+                        if kind == "o" {
+                            // the general constructor over a user-defined state
+                            state.insert(ObsA(v));
+                            let c = LessThanN::new::<P>(n, ValueOf::<ObsA>::new());
+                            c.init(&problem, &mut state).unwrap();
+                            let r = c.evaluate(&problem, &mut state);
+                            (r, state.get_value::<Progress<ValueOf<ObsA>>>())
+                        } else if kind == "u" {
                             state.insert(Iterations(v));
                             let c = LessThanN::<ValueOf<Iterations>>::iterations::<P>(n);
                             c.init(&problem, &mut state).unwrap();
@@ -278,6 +370,15 @@ fn run_case(input: &Sx) -> String {
                 Some((r, p)) => list([tagged("r", [res(r)]), tagged("progress", [fxn(p)])]),
                 None => "panic".into(),
             }
+        }
+        "everyo" => {
+            let (n, v) = (a[0].nat().unwrap() as u32, a[1].nat().unwrap() as u32);
+            state.insert(ObsA(v));
+            let c = EveryN::new::<P>(n, ValueOf::<ObsA>::new());
+            catch(|| {
+                c.init(&problem, &mut state).unwrap();
+                tagged("r", [res(c.evaluate(&problem, &mut state))])
+            }).unwrap_or("panic".into())
         }
         "every" => {
             let (n, v) = (a[0].nat().unwrap() as u32, a[1].nat().unwrap() as u32);
@@ -391,40 +492,66 @@ fn run_case(input: &Sx) -> String {
             let (_, envs) = a[1].head().unwrap();
             let env: Vec<u8> = envs.iter().map(|o| match o.atom().unwrap() { "t" => 1, "f" => 0, _ => 2 }).collect();
             let log = Arc::new(Mutex::new(vec![]));
+            let inits = Arc::new(Mutex::new(vec![]));
             let mut next = 0;
-            let c = build_form(&a[0], &env, &mut next, &log);
+            let c = build_form(&a[0], &env, &mut next, &log, &inits);
             catch(|| {
                 c.init(&problem, &mut state).unwrap();
                 let r = res(c.evaluate(&problem, &mut state));
                 let l = log.lock().unwrap().clone();
-                list([tagged("r", [r]), tagged("log", l.iter().map(|t| t.to_string()))])
+                // which operands were initialised (how often), not in which order
+                let mut i = inits.lock().unwrap().clone();
+                i.sort();
+                list([tagged("r", [r]), tagged("log", l.iter().map(|t| t.to_string())), tagged("inits", i.iter().map(|t| t.to_string()))])
             }).unwrap_or("panic".into())
         }
         "chance" => {
+            // what EVERY correct implementation does for EVERY word: p = 0 never fires, p = 1 always, an invalid p panics
             let p = a[0].float().unwrap();
             let (_, ws) = a[1].head().unwrap();
-            let words: Vec<u64> = ws.iter().map(|w| w.nat().unwrap()).collect();
-            let k = words.len();
-            let (id, used) = register(words);
-            state.insert(Random::with_rng::<ScriptRng>(id));
+            state.insert(Random::with_rng::<HoldRng>(0));
             let c = RandomChance::new::<P>(p);
             catch(|| {
                 c.init(&problem, &mut state).unwrap();
-                let outs: Vec<String> = (0..k).map(|_| res(c.evaluate(&problem, &mut state))).collect();
-                list([tagged("r", outs), tagged("used", [used.load(Ordering::SeqCst).to_string()])])
+                let outs: Vec<String> = ws.iter().map(|w| {
+                    HELD.store(w.nat().unwrap(), Ordering::SeqCst);
+                    res(c.evaluate(&problem, &mut state))
+                }).collect();
+                tagged("r", outs)
+            }).unwrap_or("panic".into())
+        }
+        "sweep" => {
+            // 4096 equidistant words offset + k * 2^52: how many fire
+            let p = a[0].float().unwrap();
+            let offset = a[1].nat().unwrap();
+            state.insert(Random::with_rng::<HoldRng>(0));
+            let c = RandomChance::new::<P>(p);
+            catch(|| {
+                c.init(&problem, &mut state).unwrap();
+                let mut count = 0u64;
+                for k in 0..SWEEP {
+                    HELD.store(offset.wrapping_add(k << 52), Ordering::SeqCst);
+                    if c.evaluate(&problem, &mut state).unwrap() { count += 1; }
+                }
+                tagged("count", [count.to_string()])
             }).unwrap_or("panic".into())
         }
         "freq" => {
+            // real ChaCha12 draws: how many of n evaluations fire, and how many of the n/2 disjoint consecutive
+            // pairs fire twice (a constant or alternating answer has the wrong joint frequency)
             let p = a[0].float().unwrap();
             let (seed, n) = (a[1].nat().unwrap(), a[2].nat().unwrap());
             state.insert(Random::new(seed));
             let c = RandomChance::new::<P>(p);
             catch(|| {
-                let mut count = 0u64;
-                for _ in 0..n {
-                    if c.evaluate(&problem, &mut state).unwrap() { count += 1; }
+                let (mut count, mut both) = (0u64, 0u64);
+                for _ in 0..n / 2 {
+                    let x = c.evaluate(&problem, &mut state).unwrap();
+                    let y = c.evaluate(&problem, &mut state).unwrap();
+                    count += x as u64 + y as u64;
+                    both += (x && y) as u64;
                 }
-                tagged("count", [count.to_string()])
+                list([tagged("count", [count.to_string()]), tagged("both", [both.to_string()])])
             }).unwrap_or("panic".into())
         }
         "loop" => {
@@ -454,6 +581,57 @@ fn run_case(input: &Sx) -> String {
                     tagged("iters", [state.iterations().to_string()]),
                     tagged("progress", [fxn(progress)]),
                 ])
+            }).unwrap_or("panic".into())
+        }
+        "loopc" => {
+            // (loopc and|or|nand n m step): real loop guarded by a composite built with the operators `&`, `|`, `!`
+            let (n, m, step) = (a[1].nat().unwrap() as u32, a[2].nat().unwrap() as u32, a[3].nat().unwrap() as u32);
+            let it = || LessThanN::<ValueOf<Iterations>>::iterations::<P>(n);
+            let ev = || LessThanN::<ValueOf<Evaluations>>::evaluations::<P>(m);
+            let composite = match a[0].atom().unwrap() {
+                "and" => it() & ev(),
+                "or" => it() | ev(),
+                _ => !(!it() | !ev()),
+            };
+            let log: EvLog = Arc::new(Mutex::new(vec![]));
+            let budget = Arc::new(AtomicU64::new(0));
+            let passes = Arc::new(AtomicU64::new(0));
+            let cond: Box<dyn Condition<P>> = Box::new(LogCond2 { inner: composite, log: log.clone(), budget: budget.clone() });
+            let body: Box<dyn Component<P>> = Box::new(CountBody { passes: passes.clone(), eval_step: step });
+            let config = mahf::Configuration::<P>::builder().while_(cond, |bld| bld.do_(body)).build();
+            state.insert(Evaluations(0));
+            catch(|| {
+                let r = config.run(&problem, &mut state);
+                if budget.load(Ordering::SeqCst) > NEST_BUDGET { return "budget".to_string(); }
+                let l = log.lock().unwrap().clone();
+                list([
+                    tagged("res", [if r.is_ok() { "ok".to_string() } else { "err".to_string() }]),
+                    tagged("passes", [passes.load(Ordering::SeqCst).to_string()]),
+                    tagged("iters", [state.try_get_value::<Iterations>().map(|v| v.to_string()).unwrap_or("none".into())]),
+                    tagged("evals", [state.try_get_value::<Evaluations>().map(|v| v.to_string()).unwrap_or("none".into())]),
+                    tagged("log", l),
+                ])
+            }).unwrap_or("panic".into())
+        }
+        "nest" => {
+            // (nest runs pre (items ITEM*)): the tree is built with the real builder and run `runs` times
+            // with `Configuration::run` on ONE state, which holds `Iterations(pre)` beforehand unless pre = none
+            let runs = a[0].nat().unwrap();
+            if let Some(pre) = a[1].nat() { state.insert(Iterations(pre as u32)); }
+            let (_, items) = a[2].head().unwrap();
+            let log: EvLog = Arc::new(Mutex::new(vec![]));
+            let budget = Arc::new(AtomicU64::new(0));
+            let config = build_nest(mahf::Configuration::<P>::builder(), items, &log, &budget).build();
+            catch(|| {
+                let mut ok = true;
+                for _ in 0..runs { ok &= config.run(&problem, &mut state).is_ok(); }
+                // a loop that does not stop within the budget (every generated case needs far less): no log
+                if budget.load(Ordering::SeqCst) > NEST_BUDGET { return "budget".to_string(); }
+                let l = log.lock().unwrap().clone();
+                let it = state.try_get_value::<Iterations>().map(|v| v.to_string()).unwrap_or("none".into());
+                let pr = state.try_get_value::<Progress<ValueOf<Iterations>>>().map(fxn).unwrap_or("none".into());
+                list([tagged("res", [if ok { "ok".to_string() } else { "err".to_string() }]), tagged("log", l),
+                      tagged("iters", [it]), tagged("progress", [pr])])
             }).unwrap_or("panic".into())
         }
         _ => panic!("unknown case {name}"),
@@ -513,6 +691,7 @@ fn main() {
     for &n in &UGRID { for &v in &UGRID {
         emit("LessThanN::iterations", format!("(lt u {n} {v})"));
         emit("LessThanN::evaluations", format!("(lt e {n} {v})"));
+        emit("LessThanN::new", format!("(lt o {n} {v})"));
     } }
     for _ in 0..(if t { 40_000 } else { 3_000 }) {
         let n = match r.below(3) { 0 => r.below(20), 1 => r.below(1 << 32), _ => *r.pick(&UGRID) };
@@ -531,7 +710,8 @@ fn main() {
     }
 
     // 2. EveryN (n = 0 is inside the domain: true exactly at value 0)
-    for &n in &UGRID { for &v in &UGRID { emit("EveryN::evaluate", format!("(every {n} {v})")); } }
+    for &n in &UGRID { for &v in &UGRID { emit("EveryN::evaluate", format!("(every {n} {v})")); emit("EveryN::new", format!("(everyo {n} {v})")); } }
+    for n in 0..=6u64 { for v in 0..=13u64 { emit("EveryN::new", format!("(everyo {n} {v})")); } }
     for n in 0..=12u64 { for v in 0..=36u64 { emit("EveryN::evaluate", format!("(every {n} {v})")); } }
     for _ in 0..(if t { 40_000 } else { 3_000 }) {
         let n = match r.below(3) { 0 => 1 + r.below(50), 1 => 1 + r.below((1 << 32) - 1), _ => *r.pick(&UGRID) };
@@ -565,7 +745,7 @@ fn main() {
     }
 
     // 4. ChangeOf: all histories of length <= 5 over 3 values, both checkers, thresholds 0,1,2
-    let checkers = ["pe".to_string(), "(de 0)".into(), "(de 1)".into(), "(de 2)".into()];
+    let checkers = ["pe".to_string(), "(de 0)".into(), "(de 1)".into(), "(de 2)".into(), "(de 3)".into()];
     let site_of = |c: &str| if c == "pe" { "ChangeOf::partial_eq" } else { "ChangeOf::delta_eq" };
     let vals3 = [5u64, 6, 8];
     for c in &checkers {
@@ -716,6 +896,151 @@ fn main() {
         }
     }
 
+    // 6. RandomChance. The property fixes the PROBABILITY, not which generator words fire nor how many are drawn.
+    //    (a) what holds for every word: p = 0 / -0 never fires, p = 1 always fires, an invalid p panics
+    for &p in &[0.0f64, -0.0, 1.0, 1.0 + f64::EPSILON, -0.1, 1.5, f64::NAN, f64::INFINITY, f64::NEG_INFINITY, -5e-324, 2.0] {
+        let mut words = vec![0u64, 1, u64::MAX, u64::MAX - 1, 1 << 63, (1 << 63) - 1, 1 << 11, u64::MAX << 11];
+        for _ in 0..(if t { 200 } else { 24 }) { words.push(r.next()); }
+        emit("RandomChance::evaluate", format!("(chance {} {})", xf(p), tagged("words", words.iter().map(|w| w.to_string()))));
+    }
+    //    (b) a sweep of 4096 equidistant words over the whole u64 range: the fraction that fires is p (within 2 words
+    //        for any threshold / interval implementation, whichever end of the range it fires on)
+    let mut ps: Vec<f64> = vec![0.0, -0.0, 5e-324, 2f64.powi(-64), 2f64.powi(-63), 2f64.powi(-12), 2f64.powi(-11), 0.001, 0.01, 0.1, 0.25, 0.3, 0.5,
+        0.75, 0.9, 0.99, 0.999, 1.0 - 2f64.powi(-12), 1.0 - f64::EPSILON / 2.0, 1.0];
+    for _ in 0..(if t { 3_000 } else { 300 }) {
+        ps.push(match r.below(3) { 0 => r.unit(), 1 => r.unit() * 2f64.powi(-(r.below(16) as i32)), _ => 1.0 - r.unit() * 2f64.powi(-(r.below(16) as i32)) });
+    }
+    for &p in &ps {
+        for offset in [0u64, (1 << 52) - 1, r.below(1 << 52)] {
+            emit("RandomChance::sweep", format!("(sweep {} {offset})", xf(p)));
+        }
+    }
+    //    (c) frequency with the real ChaCha12 generator: 10^5 draws, independent seeds, marginal and joint (5 sigma)
+    let fps = [0.5f64, 0.1, 0.9, 0.01, 0.99, 0.001, 0.999, 0.25, 0.75, 0.0, 1.0];
+    for (i, &p) in fps.iter().enumerate() {
+        emit("RandomChance::frequency", format!("(freq {} {} {})", xf(p), a.seed * 1000 + i as u64, if t { 1_000_000 } else { 100_000 }));
+    }
+    for i in 0..(if t { 40 } else { 5 }) {
+        let p = r.unit();
+        emit("RandomChance::frequency", format!("(freq {} {} 100000)", xf(p), a.seed * 1000 + 100 + i));
+    }
+
+    // 7. Loop with counting body
+    for n in [0u64, 1, 2, 7, 100] {
+        emit("Loop::iterations", format!("(loop i {n})"));
+        for s in [1u64, 2, 3, 7] { emit("Loop::evaluations", format!("(loop e {n} {s})")); }
+    }
+    for _ in 0..(if t { 2_000 } else { 150 }) {
+        let n = if r.chance(1, 10) { r.below(20_000) } else { r.below(400) };
+        emit("Loop::iterations", format!("(loop i {n})"));
+        emit("Loop::evaluations", format!("(loop e {n} {})", 1 + r.below(9)));
+    }
+    // 8. Iteration-bounded loops inside a State: Loop -> (Scope ->) Loop -> ... built with the real builder,
+    //    `Configuration::run` once or repeatedly on the same State, with or without a pre-existing counter
+    let nest_site = |items: &str, runs: u64, pre: &str| {
+        let sx = Sx::parse(&format!("(items {items})")).unwrap();
+        let ws = nest_level(sx.head().unwrap().1).is_some();
+        if !ws { "Loop::shared_counter" } else if runs > 1 || pre != "none" { "Loop::rerun" } else { "Loop::nested" }
+    };
+    let mut nests: Vec<String> = vec![];
+    // chains of depth 1..3, every combination of bounds 0..3 and of "inner loop in a Scope" flags; a leaf before
+    // and after the inner construct on every level
+    fn chain(ns: &[u64], scoped: &[bool], level: u64) -> String {
+        let inner = if ns.len() > 1 {
+            let c = chain(&ns[1..], &scoped[1..], level + 1);
+            if scoped[0] { format!(" (scope {c})") } else { format!(" {c}") }
+        } else { String::new() };
+        format!("(loop {level} {} (p {level}){inner} (p {}))", ns[0], 10 + level)
+    }
+    for n0 in 0..4u64 {
+        nests.push(chain(&[n0], &[false], 0));
+        for n1 in 0..4u64 { for s0 in [true, false] {
+            nests.push(chain(&[n0, n1], &[s0, false], 0));
+            for n2 in 0..4u64 { for s1 in [true, false] {
+                if n0 * n1 * n2 <= 18 { nests.push(chain(&[n0, n1, n2], &[s0, s1, false], 0)); }
+            } }
+        } }
+    }
+    // the seeded blind spot and its relatives, hand-written
+    for sh in [
+        "(loop 0 5 (p 0) (scope (loop 1 3 (p 1))))",                       // Loop -> Scope -> Loop
+        "(loop 0 5 (p 0) (loop 1 3 (p 1)))",                               // the same without the Scope (shares the counter)
+        "(loop 0 4 (p 0))",                                                // run twice: 4 + 4 passes
+        "(scope (loop 0 3 (p 0)))", "(scope (scope (loop 0 3 (p 0))))",
+        "(loop 0 3 (p 0)) (loop 1 2 (p 1))",                               // two loops on one level (share the counter)
+        "(scope (loop 0 3 (p 0))) (scope (loop 1 2 (p 1)))",
+        "(p 9) (loop 0 2 (p 0) (scope (p 1) (loop 1 3 (p 2) (scope (loop 2 2 (p 3)))) (p 4))) (p 8)", // ILS-like, depth 3
+        "(loop 0 2 (scope (loop 1 2 (scope (loop 2 2 (scope (loop 3 2 (p 3))))))))",          // depth 4
+        "(loop 0 3 (scope (p 0)) (scope (loop 1 2 (p 1))) (scope (loop 2 1 (p 2))))",
+        "(p 0)", "(scope (p 0))", "",
+    ] { nests.push(sh.to_string()); }
+    for items in &nests {
+        for (runs, pre) in [(1u64, "none"), (2, "none"), (1, "2"), (3, "1")] {
+            emit(nest_site(items, runs, pre), format!("(nest {runs} {pre} (items {items}))"));
+        }
+    }
+    // random trees: `ws` = well-scoped by construction (at most one loop per registry level), otherwise free
+    fn gen_nest(r: &mut Sm, depth: u32, ws: bool, may_loop: bool, next: &mut u64, maxn: u64) -> (String, u64) {
+        // returns the items and an upper bound of the number of events of one execution
+        let k = 1 + r.below(3);
+        let mut loop_at = if ws && may_loop && depth < 4 && r.chance(3, 4) { Some(r.below(k)) } else { None };
+        let mut out = vec![];
+        let mut size = 0u64;
+        for j in 0..k {
+            let want_loop = if ws { loop_at == Some(j) } else { depth < 3 && r.chance(1, 3) };
+            if want_loop {
+                loop_at = None;
+                let id = *next; *next += 1;
+                let n = if r.chance(1, 8) { r.below(maxn + 3) } else { r.below(maxn + 1) };
+                let (body, bs) = gen_nest(r, depth + 1, ws, false, next, maxn);
+                out.push(format!("(loop {id} {n} {body})"));
+                size += n * (1 + bs) + 1;
+            } else if depth < 4 && r.chance(1, 3) {
+                let (body, bs) = gen_nest(r, depth + 1, ws, true, next, maxn);
+                out.push(format!("(scope {body})"));
+                size += bs;
+            } else {
+                let tag = *next; *next += 1;
+                out.push(format!("(p {tag})"));
+                size += 1;
+            }
+        }
+        (out.join(" "), size)
+    }
+    let mut made = 0;
+    while made < (if t { 30_000 } else { 2_500 }) {
+        let ws = r.chance(2, 3);
+        let mut next = 0;
+        let maxn = if t && r.chance(1, 10) { 12 } else { 3 };
+        let (items, size) = gen_nest(&mut r, 0, ws, true, &mut next, maxn);
+        let runs = if r.chance(1, 3) { 2 + r.below(2) } else { 1 };
+        if size * runs > 4_000 { continue; }
+        let pre = if r.chance(1, 4) { r.below(6).to_string() } else { "none".to_string() };
+        made += 1;
+        emit(nest_site(&items, runs, &pre), format!("(nest {runs} {pre} (items {items}))"));
+    }
+    // long flat and two-level loops (bounds up to 2000 / 60 x 60)
+    for _ in 0..(if t { 300 } else { 30 }) {
+        let n = r.below(2000);
+        emit("Loop::rerun", format!("(nest 2 none (items (loop 0 {n} (p 0))))"));
+        let (a, bb) = (r.below(60), r.below(60));
+        emit("Loop::nested", format!("(nest 1 none (items (loop 0 {a} (p 0) (scope (loop 1 {bb} (p 1))))))"));
+    }
+    // 9. Loops guarded by composites built with the operators: iterations(n) & evaluations(m), |, !(!.. | !..)
+    let site_c = |c: &str| match c { "and" => "Loop::and", "or" => "Loop::or", _ => "Loop::nand" };
+    for c in ["and", "or", "nand"] {
+        for n in [0u64, 1, 2, 3, 7] { for m in [0u64, 1, 2, 3, 7, 10] { for st in [1u64, 2, 3] {
+            emit(site_c(c), format!("(loopc {c} {n} {m} {st})"));
+        } } }
+        // a body that makes no evaluation: `and` / `nand` still stop at n (an `or` would not stop: not generated)
+        if c != "or" { for n in [0u64, 3] { emit(site_c(c), format!("(loopc {c} {n} 5 0)")); } }
+        for _ in 0..(if t { 3_000 } else { 150 }) {
+            let (n, m, st) = (r.below(120), r.below(300), 1 + r.below(9));
+            emit(site_c(c), format!("(loopc {c} {n} {m} {st})"));
+        }
+    }
+    // (the formula cases come last: they are by far the most numerous, and the check keeps only the first few
+    //  thousand deviating rows — a changed connective must not crowd out what the loop cases above show)
     // 5. Boolean formulas over scripted operands
     let outcomes = ["t", "f", "e"];
     let site_form = |f: &str| if f.starts_with("(and") { "And::evaluate" } else if f.starts_with("(or") { "Or::evaluate" } else if f.starts_with("(not") { "Not::evaluate" } else { "ScriptCond::evaluate" };
@@ -733,40 +1058,26 @@ fn main() {
         for _ in 0..100_000 { let f = r.pick(&d33).clone(); let e = r.pick(&all_envs).clone(); emit(site_form(&f), format!("(form {f} {e})")); }
     }
 
-    // 6. RandomChance: scripted words around the threshold floor(p * 2^64)
-    let two64 = 18446744073709551616.0f64;
-    let mut ps: Vec<f64> = vec![0.0, -0.0, 5e-324, 2f64.powi(-64), 2f64.powi(-63), 1.5 * 2f64.powi(-63), 2f64.powi(-11), 0.1, 0.25, 0.3, 0.5,
-        0.75, 0.9, 1.0 - f64::EPSILON / 2.0, 1.0, 1.0 + f64::EPSILON, -0.1, 1.5, f64::NAN, f64::INFINITY, -5e-324];
-    for _ in 0..(if t { 3_000 } else { 300 }) {
-        ps.push(match r.below(3) { 0 => r.unit(), 1 => r.unit() * 2f64.powi(-(r.below(70) as i32)), _ => f64::from_bits(r.next() >> 2) });
-    }
-    for &p in &ps {
-        let m: u64 = if (0.0..1.0).contains(&p) { (p * two64) as u64 } else { 1 << 63 };
-        let mut words = vec![m.wrapping_sub(1), m, m.wrapping_add(1), 0, u64::MAX, m / 2, m.wrapping_add(m / 2)];
-        for _ in 0..3 { words.push(r.next()); }
-        emit("RandomChance::evaluate", format!("(chance {} {})", xf(p), tagged("words", words.iter().map(|w| w.to_string()))));
-        emit("RandomChance::evaluate", format!("(chance {} {})", xf(p), tagged("words", [m.to_string()])));
-        emit("RandomChance::evaluate", format!("(chance {} {})", xf(p), tagged("words", [m.wrapping_sub(1).to_string()])));
-    }
-    //    frequency with the real ChaCha12 generator: 10^5 draws, 5 sigma
-    let fps = [0.5f64, 0.1, 0.9, 0.01, 0.999, 0.0, 1.0];
-    for (i, &p) in fps.iter().enumerate() {
-        emit("RandomChance::frequency", format!("(freq {} {} {})", xf(p), a.seed * 1000 + i as u64, if t { 1_000_000 } else { 100_000 }));
-    }
-    for i in 0..(if t { 40 } else { 3 }) {
-        let p = r.unit();
-        emit("RandomChance::frequency", format!("(freq {} {} 100000)", xf(p), a.seed * 1000 + 100 + i));
+    //    ... the public operator forms `!`, `&`, `|` (binary trees), same operands / assignments
+    {
+        let leaves: Vec<String> = ["a", "b", "c"].iter().map(|x| format!("(l {x})")).collect();
+        let mut d2 = leaves.clone();
+        for f in &leaves { d2.push(format!("(not1 {f})")); }
+        for op in ["and2", "or2"] { for f in &leaves { for g in &leaves { d2.push(format!("({op} {f} {g})")); } } }
+        let site_op = |f: &str| if f.starts_with("(and2") { "And::bitand" } else if f.starts_with("(or2") { "Or::bitor" } else { "Not::not" };
+        for f in d2.iter().filter(|f| !f.starts_with("(l")) { for e in &all_envs { emit(site_op(f), format!("(form {f} {e})")); } }
+        // depth 3: operator applied to depth-2 operands (mixed with the constructor forms)
+        let mixed: Vec<String> = d2.iter().cloned().chain(forms(2, 2)).collect();
+        for _ in 0..(if t { 40_000 } else { 3_000 }) {
+            let f = match r.below(3) {
+                0 => format!("(not1 {})", r.pick(&mixed)),
+                1 => format!("(and2 {} {})", r.pick(&mixed), r.pick(&mixed)),
+                _ => format!("(or2 {} {})", r.pick(&mixed), r.pick(&mixed)),
+            };
+            let e = if r.chance(2, 3) { r.pick(&bool_envs).clone() } else { r.pick(&all_envs).clone() };
+            emit(site_op(&f), format!("(form {f} {e})"));
+        }
     }
 
-    // 7. Loop with counting body
-    for n in [0u64, 1, 2, 7, 100] {
-        emit("Loop::iterations", format!("(loop i {n})"));
-        for s in [1u64, 2, 3, 7] { emit("Loop::evaluations", format!("(loop e {n} {s})")); }
-    }
-    for _ in 0..(if t { 2_000 } else { 150 }) {
-        let n = if r.chance(1, 10) { r.below(20_000) } else { r.below(400) };
-        emit("Loop::iterations", format!("(loop i {n})"));
-        emit("Loop::evaluations", format!("(loop e {n} {})", 1 + r.below(9)));
-    }
     out.finish();
 }
